@@ -395,6 +395,12 @@ def c13(res, tier, seed):
     res.add_tlc(r, "VUtf8: table-driven DFA = definitional decoder on all strings over the 15-byte corner alphabet")
     # validated strings (editions VERIFY / proto3) and non-validated (proto2) in every position: singular, repeated, oneof, map key/value
     mc(res, b, "utf8-te", BASE_TE, [14, 44, 69, 71, 113, 15], ["marshal", "rt", "uenc"], 2, bad_utf8=True, laws=["AllWellFormed", "RoundTripLaw"])
+    # string EXTENSIONS: validated when declared in an editions (VERIFY by default) file, not validated in a proto2 file (F29)
+    # (20006/20007: the harness's edition-2023 string extensions; the repository's own editions extension file opts out of validation)
+    mc(res, b, "utf8-ext-te", "goproto.proto.testeditions.TestAllExtensions", [14, 20006, 20007], ["marshal", "rt", "uenc"], 2, bad_utf8=True,
+       laws=["AllWellFormed", "RoundTripLaw"])
+    mc2(tier, res, b, "utf8-ext-t2", "goproto.proto.test.TestAllExtensions", [14, 44], ["marshal", "rt", "uenc"], 2, bad_utf8=True,
+        laws=["AllWellFormed", "RoundTripLaw"])
     mc2(tier, res, b, "utf8-t3", BASE_T3, [94, 44, 69, 113], ["marshal", "rt", "uenc"], 2, bad_utf8=True, laws=["AllWellFormed", "RoundTripLaw"])
     mc2(tier, res, b, "utf8-t2", BASE_T2, [14, 44, 69, 113, 15], ["marshal", "rt", "uenc"], 2, bad_utf8=True, laws=["AllWellFormed", "RoundTripLaw"])
     finish(res, b, seed, tier, "mut=10,marshal=4,unmarshal=4,rt=3")
